@@ -1383,13 +1383,22 @@ def compile_template(
 
 def format_template(source: str, template_match: NamedTuple, **callables) -> str:
     template_match_asdict = template_match._asdict() if hasattr(template_match, "_asdict") else {}
-    for name, value in template_match_asdict.items():
-        source = source.replace("{{" + name + "}}", unparse(value))
+    unfilled_wildcards = []
 
+    def fill_wildcard(slot: re.Match) -> str:
+        name = slot.group(1)
+        if name in template_match_asdict:
+            return unparse(template_match_asdict[name])
+        unfilled_wildcards.append(slot.group())
+        return slot.group()
+
+    # All wildcards are filled in a single pass over the template, so that text inserted for one
+    # wildcard (e.g. a string constant that contains "{{b}}") is never mistaken for a wildcard.
     # It's ok that some of the template_match isn't used, just like str.format()
     # may not use all of the arguments.
+    source = re.sub(r"\{\{(\w+)\}\}", fill_wildcard, source)
 
-    if unfilled_wildcards := re.findall(r"\{\{\w+\}\}", source):
+    if unfilled_wildcards:
         raise ValueError(f"Unfilled wildcards found in source: {unfilled_wildcards}")
 
     for callable_slot in re.finditer(r"\{\{\w+\((\w+,?)+\)\}\}", source):
